@@ -456,6 +456,47 @@ Fixpoint rollforward_reco (n : node) (news_oldest_first : list block) : node * b
               end
   end.
 
+(** Recover with a reorg marker (recoverReorg -> reorg(top, marker)): [n1] is the node after
+    loadChainData and RecoverChainMapping. *)
+Definition recover_tail (n1 : node) (m : marker) : start_result :=
+  (* sdb.Init at the (restored) best block; Recover *)
+  let n2 := set_sdb n1 (root (best n1)) in
+  if negb (hash_field (best n2) =? m_best m) then StartErr n2   (* ErrRecoInvalidBest *)
+  else
+  match get_block (dur n2) (m_top m), get_block (dur n2) (m_start m), get_block (dur n2) (m_best m) with
+  | Some top, Some st, Some ob =>
+      if (no top <=? no ob) || (no ob <=? no st) || (no top <=? no st) then StartErr n2
+      else
+      match gather_down (S (N.to_nat (no ob))) (dur n2) (no st) ob,
+            gather_down (S (N.to_nat (no top))) (dur n2) (no st) top with
+      | Some olds, Some news =>
+          let n3 := set_sdb n2 (root st) in
+          match rollforward_reco n3 (rev news) with
+          | (n4, false) => StartErr (if f7_fixed then set_sdb n4 (root ob) else n4)
+          | (n4, true) =>
+              StartOk (swap_chain n4 m top news olds (hash_field (best n4) =? hash_field top))
+          end
+      | _, _ => StartErr n2
+      end
+  | _, _, _ => StartErr n2
+  end.
+
+(** RecoverChainMapping: restore the height index of the old branch when the swap had been flushed *)
+Definition recover_chain_mapping (n0 : node) (m : marker) : option node :=
+  if hash_field (best n0) =? m_best m then Some n0
+  else match get_block (dur n0) (m_best m) with
+       | None => None
+       | Some ob =>
+           match old_heights (S (N.to_nat (no ob))) (dur n0) (m_start_no m) ob with
+           | None => None
+           | Some hs =>
+               let u := mkUnit SChain UBulk
+                          (del_heights (N.to_nat (m_top_no m - m_best_no m)) (m_top_no m)
+                           ++ hs ++ [(KLatest, Some (VNo (m_best_no m)))]) in
+               Some (set_best (emit n0 u) ob)
+           end
+       end.
+
 (** loadChainData; cdb.recover; sdb.Init(best); Recover.  The journal of the restarted node
     starts empty; volatile state (orphans, errBlocks, LIB) is lost. *)
 Definition restart (d : store) : option start_result :=
@@ -469,45 +510,9 @@ Definition restart (d : store) : option start_result :=
       match get_marker d with
       | None => Some (StartOk n0)                              (* recoverNormal: root = best root by Init *)
       | Some m =>
-        (* RecoverChainMapping *)
-        let n1 :=
-          if hash_field b0 =? m_best m then Some n0
-          else match get_block d (m_best m) with
-               | None => None
-               | Some ob =>
-                   match old_heights (S (N.to_nat (no ob))) d (m_start_no m) ob with
-                   | None => None
-                   | Some hs =>
-                       let u := mkUnit SChain UBulk
-                                  (del_heights (N.to_nat (m_top_no m - m_best_no m)) (m_top_no m)
-                                   ++ hs ++ [(KLatest, Some (VNo (m_best_no m)))]) in
-                       Some (set_best (emit n0 u) ob)
-                   end
-               end in
-        match n1 with
+        match recover_chain_mapping n0 m with
         | None => None
-        | Some n1 =>
-          (* sdb.Init at the (restored) best block; Recover *)
-          let n2 := set_sdb n1 (root (best n1)) in
-          if negb (hash_field (best n2) =? m_best m) then Some (StartErr n2)   (* ErrRecoInvalidBest *)
-          else
-          match get_block (dur n2) (m_top m), get_block (dur n2) (m_start m), get_block (dur n2) (m_best m) with
-          | Some top, Some st, Some ob =>
-              if (no top <=? no ob) || (no ob <=? no st) || (no top <=? no st) then Some (StartErr n2)
-              else
-              match gather_down (S (N.to_nat (no ob))) (dur n2) (no st) ob,
-                    gather_down (S (N.to_nat (no top))) (dur n2) (no st) top with
-              | Some olds, Some news =>
-                  let n3 := set_sdb n2 (root st) in
-                  match rollforward_reco n3 (rev news) with
-                  | (n4, false) => Some (StartErr (if f7_fixed then set_sdb n4 (root ob) else n4))
-                  | (n4, true) =>
-                      Some (StartOk (swap_chain n4 m top news olds (hash_field (best n4) =? hash_field top)))
-                  end
-              | _, _ => Some (StartErr n2)
-              end
-          | _, _, _ => Some (StartErr n2)
-          end
+        | Some n1 => Some (recover_tail n1 m)
         end
       end
     end
